@@ -110,7 +110,7 @@ end
 def Json.truthy (v : Json) (includeZero : Bool) : Bool :=
   match v with
   | .bool b => b
-  | .num n => if includeZero then n.asF64NotNan else n.asF64Normal
+  | .num n => if includeZero then n.asF64NotNan else n.asF64NonZero
   | .null => false
   | .str s => !s.isEmpty
   | .arr xs => !xs.isEmpty
